@@ -172,16 +172,16 @@ Section Collection.
   Lemma project_from : forall S1 S0 n m seen fs t,
     Forall (fun fa => NoDup (map fst fa)) S1 -> PInv o d S0 seen fs ->
     trace_seq' o d (map VStruct S1) (Ok (TStruct n m seen fs)) = Ok t ->
-    exists m' fs', t = TStruct n m' (seen + length S1) fs' /\ PInv o d (S0 ++ S1) (seen + length S1) fs'.
+    exists fs', t = TStruct n m (seen + length S1) fs' /\ PInv o d (S0 ++ S1) (seen + length S1) fs'.
   Proof.
     induction S1 as [|fa r IH]; intros S0 n m seen fs t HF Hinv H.
-    - cbn [map trace_seq' fold_left] in H. injection H as <-. exists m, fs. rewrite Nat.add_0_r, app_nil_r. split; [reflexivity|exact Hinv].
+    - cbn [map trace_seq' fold_left] in H. injection H as <-. exists fs. rewrite Nat.add_0_r, app_nil_r. split; [reflexivity|exact Hinv].
     - cbn [map trace_seq' fold_left bind] in H. destruct (trace o d (VStruct fa) (TStruct n m seen fs)) as [t1| |p] eqn:E.
       + rewrite trace_struct_eq in E. apply bind_ok in E as (t0 & He & E). apply ensure_struct_on_struct in He. subst t0.
         apply bind_ok in E as (fs1 & Hloop & E). injection E as <-.
         pose proof (pinv_step o d S0 seen fs fa fs1 Hinv (Forall_inv HF) Hloop) as Hinv1.
-        destruct (IH (S0 ++ [fa]) n (m || false) (S seen) (struct_end seen fs1) t (Forall_inv_tail HF) Hinv1 H) as (m' & fs' & -> & Hinv').
-        exists m', fs'. cbn [length]. replace (seen + S (length r)) with (S seen + length r) by lia. rewrite <- app_assoc in Hinv'. split; [reflexivity|exact Hinv'].
+        rewrite orb_false_r in H. destruct (IH (S0 ++ [fa]) n m (S seen) (struct_end seen fs1) t (Forall_inv_tail HF) Hinv1 H) as (fs' & -> & Hinv').
+        exists fs'. cbn [length]. replace (seen + S (length r)) with (S seen + length r) by lia. rewrite <- app_assoc in Hinv'. split; [reflexivity|exact Hinv'].
       + fold (trace_seq' o d (map VStruct r) Err) in H. rewrite fold_err in H. discriminate.
       + fold (trace_seq' o d (map VStruct r) (Panic p)) in H. rewrite fold_panic in H. discriminate.
   Qed.
@@ -193,7 +193,7 @@ Section Collection.
   Theorem record_projection SS n0 t :
     SS <> [] -> Forall (fun fa => NoDup (map fst fa)) SS ->
     trace_seq' o d (map VStruct SS) (Ok (TUnknown n0)) = Ok t ->
-    exists m fs, t = TStruct n0 m (length SS) fs /\
+    exists fs, t = TStruct n0 false (length SS) fs /\
       forall k, match fget2 k fs with
                 | Some (tk, _) => vals k SS <> [] /\
                                   exists T, trace_seq' o (S d + count_dots k) (vals k SS) (Ok (TUnknown false)) = Ok T /\ tk = mk (missing k SS) T
@@ -203,7 +203,7 @@ Section Collection.
     intros Hne HF H. destruct SS as [|fa r]; [congruence|]. cbn [map trace_seq' fold_left bind] in H. rewrite trace_struct_fresh in H.
     change (fold_left (fun acc v => do t0 <- acc;; trace o d v t0) (map VStruct r) (trace o d (VStruct fa) (TStruct n0 false 0 [])))
       with (trace_seq' o d (map VStruct (fa :: r)) (Ok (TStruct n0 false 0 []))) in H.
-    destruct (project_from (fa :: r) [] n0 false 0 [] t HF (pinv_nil o d) H) as (m' & fs' & -> & (_ & _ & Hk)).
-    exists m', fs'. split; [reflexivity|]. exact Hk.
+    destruct (project_from (fa :: r) [] n0 false 0 [] t HF (pinv_nil o d) H) as (fs' & -> & (_ & _ & Hk)).
+    exists fs'. split; [reflexivity|]. exact Hk.
   Qed.
 End Collection.
